@@ -38,7 +38,7 @@ SHARD = 60
 REG_HEADER = ("From Coq Require Import ZArith List String.\n"
               "From ACN Require Import Base.Num Model.Registry.\nImport ListNotations.\n"
               "Open Scope string_scope.\nOpen Scope Z_scope.\n")
-RULE = ("history = 1-4 stations (EVSE / DeadbandEVSE / FiniteRatesEVSE), back-to-back sessions per station with "
+RULE = ("history = 1-4 stations (EVSE / DeadbandEVSE / FiniteRatesEVSE; some EVSE / DeadbandEVSE left at the default max_rate=inf), back-to-back sessions per station with "
         "Battery or Linear2StageBattery (continuous/stepwise, with and without noise), ties of plugins/unplugs at one "
         "timestamp, RecomputeEvents before/between/after the sessions, untyped base Events, max_recompute in {None,1,2,3}, "
         "store_schedule_history on/off, scripted / UncontrolledCharging / sorted schedulers, the interruption an Exception, "
@@ -118,9 +118,9 @@ def gen_history(rng, special=None, big=False):
     for i in range(n_st):
         t = rng.random()
         if t < 0.4:
-            kind = ["C", 0, rng.choice([16, 32, 32, 40])]
+            kind = ["C", 0, rng.choice([16, 32, 32, 40, None])]      # None: the default max_rate=inf
         elif t < 0.7:
-            kind = ["D", rng.choice([6, 8]), rng.choice([16, 32])]
+            kind = ["D", rng.choice([6, 8]), rng.choice([16, 32, None])]
         else:
             kind = ["F", rng.choice([[8, 16, 24, 32], [6, 12, 18], [16, 32], [0, 8, 16]])]
         stations.append(dict(kind=kind, voltage=rng.choice([208, 240])))
@@ -157,6 +157,8 @@ def gen_history(rng, special=None, big=False):
         extra.append(["RecomputeEvent", rng.choice([rng.randint(0, last), last, last + 1, last + rng.randint(1, 3), 0])])
     mr = rng.choice([None, None, 1, 2, 3])
     sched = rng.choice([["scripted"], ["scripted"], ["scripted"], ["uncontrolled"], ["sorted", rng.choice(["edf", "fcfs", "llf", "rr"])]])
+    if any(st["kind"][0] in "CD" and st["kind"][2] is None for st in stations) and sched[0] == "sorted":
+        sched = ["uncontrolled"]
     if rng.random() < 0.12 and not special:
         # a scheduler with LEARNED state: sorted / round-robin with the SimpleRampdown upper-bound estimator, on a
         # history where the learned bounds matter: continuous EVSEs, on-board chargers that draw less than the
@@ -256,8 +258,12 @@ SKIPPED = []    # why reference runs were unusable (the reference run itself rai
 
 def allowable(kind):
     if kind[0] == "C":
+        if kind[2] is None:
+            return [0, 48, 16, 8, 6.5, 100]
         return [0, kind[2], kind[2] / 2, 8, 6.5, kind[2]]
     if kind[0] == "D":
+        if kind[2] is None:
+            return [0, kind[1], 40, kind[1] + 10]
         return [0, kind[1], kind[2], (kind[1] + kind[2]) / 2]
     return [0] + list(kind[1])
 
@@ -385,9 +391,10 @@ def make_evse(i, st):
     from acnportal.acnsim.models import EVSE, DeadbandEVSE, FiniteRatesEVSE
     k = st["kind"]
     if k[0] == "C":
-        return EVSE(st["id"], max_rate=k[2], min_rate=k[1])
+        return EVSE(st["id"], min_rate=k[1]) if k[2] is None else EVSE(st["id"], max_rate=k[2], min_rate=k[1])
     if k[0] == "D":
-        return DeadbandEVSE(st["id"], deadband_end=k[1], max_rate=k[2])
+        return (DeadbandEVSE(st["id"], deadband_end=k[1]) if k[2] is None
+                else DeadbandEVSE(st["id"], deadband_end=k[1], max_rate=k[2]))
     return FiniteRatesEVSE(st["id"], list(k[1]))
 
 
